@@ -17,7 +17,11 @@ invocations of an entry of `marshal.unmarshallers` (what the harness counts by w
 entries; `unmarshal_variant`'s direct call of `unmarshal_signature` and `unmarshal_struct`'s call of
 `unmarshal` are not dict dispatches and are not counted), `depth` = nesting depth of those
 invocations, `frames` = estimate of the Python frames in use (for the `RecursionError`
-canonicalisation only), `size` = number of value nodes built, `vals` = shapes of the values.
+canonicalisation only), `size` = number of value nodes built, `vals` = shapes of the values,
+`work` = `steps` + what one invocation additionally touches: the characters of `ct` it slices (`ct[1:-1]`, `ct[1:]`), the
+data bytes a string / signature read slices, and - charged in `seq`, per piece - the characters `genCompleteTypes`
+scans, slices and concatenates to produce that piece (`firstCost`; quadratic in a run of leading `a`), `chars` = total
+length of the decoded strings.
 
 Fuel: every one of the three mutually recursive functions consumes one unit per call, and passes the
 remaining fuel to *each* of its callees, so fuel bounds the length of the longest chain
@@ -78,6 +82,8 @@ structure Out where
   frames : Nat
   size : Nat
   vals : List Shape
+  work : Nat
+  chars : Nat
   deriving Repr, Inhabited
 
 /-- The two tables of `marshal.py` the decoder dispatches on. -/
@@ -131,56 +137,95 @@ def dictErr : List Shape → Option Err
   | .list _ :: _ => some .index
   | _ :: _ => some .type
 
-def fail (e : Err) (off steps depth frames : Nat) : Out :=
-  { st := .err e, off := off, steps := steps, depth := depth, frames := frames, size := 0, vals := [] }
+def fail (e : Err) (off steps depth frames work : Nat) : Out :=
+  { st := .err e, off := off, steps := steps, depth := depth, frames := frames, size := 0, vals := [],
+    work := work, chars := 0 }
 
 def noFuel : Out :=
-  { st := .outOfFuel, off := 0, steps := 0, depth := 0, frames := 0, size := 0, vals := [] }
+  { st := .outOfFuel, off := 0, steps := 0, depth := 0, frames := 0, size := 0, vals := [], work := 0, chars := 0 }
+
+/-- Characters touched by `next()` of `genCompleteTypes` while it produces the first piece of `s`: `find_end` scan
+plus the slice for a bracket (2 per character of the piece); for a leading `a` the slice `compoundSig[i+1:]`, the
+nested generator's own cost and the concatenation `'a' + ct`; 1 for any other character. -/
+def firstCost : List Char → Nat
+  | [] => 0
+  | c :: cs =>
+    if c = '(' then
+      match findEnd '(' ')' 1 cs with
+      | some x => 2 * (x + 2)
+      | none => 0
+    else if c = '{' then
+      match findEnd '{' '}' 1 cs with
+      | some x => 2 * (x + 2)
+      | none => 0
+    else if c = 'a' then
+      cs.length + firstCost cs +
+        (match firstType cs with
+         | .ok (ct, _) => ct.length + 1
+         | .error _ => 0)
+    else 1
+
+/-- What a failing `next()` may have touched (upper bound). -/
+def scanErr (s : List Char) : Nat := (s.length + 1) * (s.length + 1)
 
 section
-variable (T : Tables) (chk : Bool) (data : List UInt8) (le : Bool)
+variable (T : Tables) (chk : Bool) (fds : Option (List Nat)) (data : List UInt8) (le : Bool)
 
 mutual
-/-- `unmarshallers[ct[0]](ct, data, off, lendian, oobFDs)` with `oobFDs = []`. -/
+/-- `unmarshallers[ct[0]](ct, data, off, lendian, oobFDs)`; `fds = none` is `oobFDs=None`. -/
 def one : Nat → List Char → Nat → Out
   | 0, _, _ => noFuel
   | f + 1, ct, off =>
     match ct with
-    | [] => fail .index off 0 0 0
+    | [] => fail .index off 0 0 0 0
     | c :: tl =>
+      let dc := 1 + (c :: tl).length          -- the dispatch itself + the characters of `ct` it may slice
       match T.kindOf c with
-      | none => fail .key off 0 0 0
+      | none => fail .key off 0 0 0 0
       | some (.fixed need adv cls) =>
         if off + need ≤ data.length then
-          { st := .ok, off := off + adv, steps := 1, depth := 1, frames := 0, size := 1,
-            vals := [fixedShape cls le (slice data off (off + need))] }
-        else fail .struct off 1 1 0
+          if cls = 2 then
+            -- unmarshal_unix_fd: `try: fd = oobFDs[index] except IndexError: fd = None`
+            match fds with
+            | Option.none => fail .type off 1 1 0 dc
+            | some l =>
+              { st := .ok, off := off + adv, steps := 1, depth := 1, frames := 0, size := 1,
+                vals := [match l[uval le (slice data off (off + need))]? with
+                         | some fd => .int fd
+                         | Option.none => .none],
+                work := dc, chars := 0 }
+          else
+            { st := .ok, off := off + adv, steps := 1, depth := 1, frames := 0, size := 1,
+              vals := [fixedShape cls le (slice data off (off + need))], work := dc, chars := 0 }
+        else fail .struct off 1 1 0 dc
       | some .string =>
         if off + 4 ≤ data.length then
           let slen := uval le (slice data off (off + 4))
+          let sl := (slice data (off + 4) (off + 4 + slen)).length
           match utf8Decode (slice data (off + 4) (off + 4 + slen)) with
-          | none => fail .unicode off 1 1 0
+          | none => fail .unicode off 1 1 0 (dc + sl)
           | some s =>
             { st := .ok, off := off + 4 + slen + 1, steps := 1, depth := 1, frames := 0, size := 1,
-              vals := [.str s] }
-        else fail .struct off 1 1 0
+              vals := [.str s], work := dc + sl, chars := s.length }
+        else fail .struct off 1 1 0 dc
       | some .signature =>
         if off + 1 ≤ data.length then
           let slen := uval le (slice data off (off + 1))
+          let sl := (slice data (off + 1) (off + 1 + slen)).length
           match asciiDecode (slice data (off + 1) (off + 1 + slen)) with
-          | none => fail .unicode off 1 1 0
+          | none => fail .unicode off 1 1 0 (dc + sl)
           | some s =>
             { st := .ok, off := off + 1 + slen + 1, steps := 1, depth := 1, frames := 0, size := 1,
-              vals := [.str s] }
-        else fail .struct off 1 1 0
+              vals := [.str s], work := dc + sl, chars := s.length }
+        else fail .struct off 1 1 0 dc
       | some .array =>
         if off + 4 ≤ data.length then
           let dlen := uval le (slice data off (off + 4))
           match tl with
-          | [] => fail .index off 1 1 0
+          | [] => fail .index off 1 1 0 dc
           | tc :: _ =>
             match T.alignOf tc with
-            | none => fail .key off 1 1 0
+            | none => fail .key off 1 1 0 dc
             | some a =>
               let start := off + 4 + padLen a (off + 4)
               let r := loop f tl a start (start + dlen)
@@ -188,60 +233,61 @@ def one : Nat → List Char → Nat → Out
               | .ok =>
                 if tc = '{' then
                   match dictErr r.vals with
-                  | some e => fail e off (r.steps + 1) (r.depth + 1) r.frames
+                  | some e => fail e off (r.steps + 1) (r.depth + 1) r.frames (r.work + dc)
                   | none =>
                     { st := .ok, off := r.off, steps := r.steps + 1, depth := r.depth + 1, frames := r.frames,
-                      size := r.size + 1, vals := [.dict r.vals.length] }
+                      size := r.size + 1, vals := [.dict r.vals.length], work := r.work + dc, chars := r.chars }
                 else
                   { st := .ok, off := r.off, steps := r.steps + 1, depth := r.depth + 1, frames := r.frames,
-                    size := r.size + 1, vals := [.list r.vals] }
+                    size := r.size + 1, vals := [.list r.vals], work := r.work + dc, chars := r.chars }
               | st => { st := st, off := r.off, steps := r.steps + 1, depth := r.depth + 1, frames := r.frames,
-                        size := 0, vals := [] }
-        else fail .struct off 1 1 0
+                        size := 0, vals := [], work := r.work + dc, chars := 0 }
+        else fail .struct off 1 1 0 dc
       | some .struct =>
         let r := seq f tl.dropLast off
         { st := r.st, off := r.off, steps := r.steps + 1, depth := r.depth + 1, frames := r.frames + 1,
-          size := r.size + 1, vals := [.list r.vals] }
+          size := r.size + 1, vals := [.list r.vals], work := r.work + dc, chars := r.chars }
       | some .variant =>
         if off + 1 ≤ data.length then
           let slen := uval le (slice data off (off + 1))
+          let sl := (slice data (off + 1) (off + 1 + slen)).length
           match asciiDecode (slice data (off + 1) (off + 1 + slen)) with
-          | none => fail .unicode off 1 1 0
+          | none => fail .unicode off 1 1 0 (dc + sl)
           | some vsig =>
             let off1 := off + 1 + slen + 1
             match vsig with
-            | [] => fail .index off 1 1 0
+            | [] => fail .index off 1 1 0 (dc + sl)
             | vc :: _ =>
               match T.alignOf vc with
-              | none => fail .key off 1 1 0
+              | none => fail .key off 1 1 0 (dc + sl)
               | some a =>
                 let r := seq f vsig (off1 + padLen a off1)
                 match r.st with
                 | .ok =>
                   match r.vals with
-                  | [] => fail .index off (r.steps + 1) (r.depth + 1) (r.frames + 1)
+                  | [] => fail .index off (r.steps + 1) (r.depth + 1) (r.frames + 1) (r.work + (dc + sl))
                   | v :: _ =>
                     { st := .ok, off := r.off, steps := r.steps + 1, depth := r.depth + 1, frames := r.frames + 1,
-                      size := r.size, vals := [v] }
+                      size := r.size, vals := [v], work := r.work + (dc + sl), chars := r.chars }
                 | st => { st := st, off := r.off, steps := r.steps + 1, depth := r.depth + 1,
-                          frames := r.frames + 1, size := 0, vals := [] }
-        else fail .struct off 1 1 0
+                          frames := r.frames + 1, size := 0, vals := [], work := r.work + (dc + sl), chars := 0 }
+        else fail .struct off 1 1 0 dc
 
-/-- `unmarshal(sig, data, off, lendian, [])`: the `for ct in genCompleteTypes(sig)` loop. -/
+/-- `unmarshal(sig, data, off, lendian, oobFDs)`: the `for ct in genCompleteTypes(sig)` loop. -/
 def seq : Nat → List Char → Nat → Out
   | 0, _, _ => noFuel
   | f + 1, sig, off =>
     match sig with
-    | [] => { st := .ok, off := off, steps := 0, depth := 0, frames := 0, size := 0, vals := [] }
+    | [] => { st := .ok, off := off, steps := 0, depth := 0, frames := 0, size := 0, vals := [], work := 0, chars := 0 }
     | _ :: _ =>
       match firstType sig with
-      | .error e => fail (splitErr e) off 0 0 (genFrames sig)
+      | .error e => fail (splitErr e) off 0 0 (genFrames sig) (scanErr sig)
       | .ok (ct, rest) =>
         match ct with
-        | [] => fail .index off 0 0 0
+        | [] => fail .index off 0 0 0 0
         | c :: _ =>
           match T.alignOf c with
-          | none => fail .key off 0 0 (genFrames ct)
+          | none => fail .key off 0 0 (genFrames ct) (firstCost sig)
           | some a =>
             let r1 := one f ct (off + padLen a off)
             match r1.st with
@@ -249,9 +295,11 @@ def seq : Nat → List Char → Nat → Out
               let r2 := seq f rest r1.off
               { st := r2.st, off := r2.off, steps := r1.steps + r2.steps, depth := max r1.depth r2.depth,
                 frames := max (max (genFrames ct) (r1.frames + 2)) r2.frames,
-                size := r1.size + r2.size, vals := r1.vals ++ r2.vals }
+                size := r1.size + r2.size, vals := r1.vals ++ r2.vals,
+                work := firstCost sig + r1.work + r2.work, chars := r1.chars + r2.chars }
             | st => { st := st, off := r1.off, steps := r1.steps, depth := r1.depth,
-                      frames := max (genFrames ct) (r1.frames + 2), size := 0, vals := [] }
+                      frames := max (genFrames ct) (r1.frames + 2), size := 0, vals := [],
+                      work := firstCost sig + r1.work, chars := 0 }
 
 /-- The `while offset < end_offset` loop of `unmarshal_array` and the `offset == end_offset` check. -/
 def loop : Nat → List Char → Nat → Nat → Nat → Out
@@ -262,24 +310,25 @@ def loop : Nat → List Char → Nat → Nat → Nat → Out
       let r1 := one f tsig p
       match r1.st with
       | .ok =>
-        if chk && r1.off == p then fail .marshalling off r1.steps r1.depth (r1.frames + 2)
+        if chk && r1.off == p then fail .marshalling off r1.steps r1.depth (r1.frames + 2) r1.work
         else
           let r2 := loop f tsig a r1.off endOff
           { st := r2.st, off := r2.off, steps := r1.steps + r2.steps, depth := max r1.depth r2.depth,
-            frames := max (r1.frames + 2) r2.frames, size := r1.size + r2.size, vals := r1.vals ++ r2.vals }
+            frames := max (r1.frames + 2) r2.frames, size := r1.size + r2.size, vals := r1.vals ++ r2.vals,
+            work := r1.work + r2.work, chars := r1.chars + r2.chars }
       | st => { st := st, off := r1.off, steps := r1.steps, depth := r1.depth, frames := r1.frames + 2,
-                size := 0, vals := [] }
+                size := 0, vals := [], work := r1.work, chars := 0 }
     else if off = endOff then
-      { st := .ok, off := off, steps := 0, depth := 0, frames := 0, size := 0, vals := [] }
-    else fail .marshalling off 0 0 0
+      { st := .ok, off := off, steps := 0, depth := 0, frames := 0, size := 0, vals := [], work := 0, chars := 0 }
+    else fail .marshalling off 0 0 0 0
 end
 
 end
 
-/-- `marshal.unmarshal(sig, data, off, lendian, [])`; `consumed = out.off - off`. -/
-def unmarshal (T : Tables) (chk : Bool) (fuel : Nat) (sig : List Char) (data : List UInt8) (off : Nat)
-    (le : Bool) : Out :=
-  let r := seq T chk data le fuel sig off
+/-- `marshal.unmarshal(sig, data, off, lendian, oobFDs)`; `consumed = out.off - off`. -/
+def unmarshal (T : Tables) (chk : Bool) (fds : Option (List Nat)) (fuel : Nat) (sig : List Char)
+    (data : List UInt8) (off : Nat) (le : Bool) : Out :=
+  let r := seq T chk fds data le fuel sig off
   { r with frames := r.frames + 1 }
 
 /-- Fuel that is always enough for `unmarshal` (`Properties/C05.lean: unmarshal_fuel_adequate`). -/
@@ -289,6 +338,14 @@ def fuelFor (sig : List Char) (data : List UInt8) : Nat := 2 * sig.length + 2 * 
 a factor given by the longest signature in play (the top-level one, or a variant's: at most 255). -/
 def stepBound (sig : List Char) (data : List UInt8) (off : Nat) : Nat :=
   sig.length + (max sig.length 255 + 2) * (data.length - off) + 1
+
+/-- The per-invocation constant of the work bound for signatures of length at most `L`: the scan for one piece
+(`(L+1)^2`, reached by a run of `a`) plus the slice of `ct` plus the invocation itself. -/
+def workUnit (L : Nat) : Nat := (L + 1) * (L + 1) + L + 1
+
+/-- Bound on `work` (`unmarshal_work_linear`). -/
+def workBound (sig : List Char) (data : List UInt8) (off : Nat) : Nat :=
+  workUnit (max sig.length 255) * stepBound sig data off + (data.length - off) + (max sig.length 255 + 1) * (max sig.length 255 + 1)
 
 /-! ## parseMessage -/
 
@@ -300,6 +357,8 @@ structure POut where
   size : Nat
   /-- 0: no body decoded; 1: body decoded with a `str` signature; 2: signature field rejected -/
   body : Nat
+  work : Nat
+  chars : Nat
   deriving Repr, Inhabited
 
 /-- the value of the last header field whose code is `sigCode` (`setattr` in list order). -/
@@ -312,37 +371,40 @@ def lastField (sigCode : Nat) : List Shape → Option Shape → Option Shape
 must be a `str` of at most 255 characters); `fix = false`: the code before that repair, mirrored for
 `str` values only (a non-empty list / dict / non-zero number is answered `TypeError` as an approximation). -/
 def parseMessage (T : Tables) (hf : List Char) (mtypes : List Nat) (sigCode : Nat) (fix : Bool)
-    (fuel : Nat) (data : List UInt8) : POut :=
+    (fds : Option (List Nat)) (fuel : Nat) (data : List UInt8) : POut :=
   match data with
-  | [] => ⟨.err .index, 0, 0, 0, 0, 0⟩
+  | [] => ⟨.err .index, 0, 0, 0, 0, 0, 0, 0⟩
   | b0 :: _ =>
     let le := b0.toNat == 108
-    let h := unmarshal T true fuel hf data 0 le
+    let h := unmarshal T true fds fuel hf data 0 le
     match h.st with
     | .ok =>
       match (h.vals[1]? : Option Shape) with
       | some (.int mt) =>
-        if !mtypes.contains mt then ⟨.err .marshalling, h.steps, h.depth, h.frames, 0, 0⟩
+        if !mtypes.contains mt then ⟨.err .marshalling, h.steps, h.depth, h.frames, 0, 0, h.work, 0⟩
         else
           let nheader := h.off
           let body := data.drop (nheader + padLen 8 nheader)
+          -- rawHeader, rawPadding, rawBody: three slices that together copy the message once
+          let w := h.work + data.length
           match (h.vals[6]? : Option Shape) with
           | some (.list fields) =>
             match lastField sigCode fields Option.none with
-            | Option.none => ⟨.ok, h.steps, h.depth, h.frames, h.size, 0⟩
+            | Option.none => ⟨.ok, h.steps, h.depth, h.frames, h.size, 0, w, h.chars⟩
             | some v =>
-              if !v.truthy then ⟨.ok, h.steps, h.depth, h.frames, h.size, 0⟩
+              if !v.truthy then ⟨.ok, h.steps, h.depth, h.frames, h.size, 0, w, h.chars⟩
               else
                 match v with
                 | .str s =>
-                  if fix && s.length > 255 then ⟨.err .marshalling, h.steps, h.depth, h.frames, 0, 2⟩
+                  if fix && s.length > 255 then ⟨.err .marshalling, h.steps, h.depth, h.frames, 0, 2, w, 0⟩
                   else
-                    let b := unmarshal T true fuel s body 0 le
-                    ⟨b.st, h.steps + b.steps, max h.depth b.depth, max h.frames b.frames, h.size + b.size, 1⟩
-                | _ => ⟨.err (if fix then .marshalling else .type), h.steps, h.depth, h.frames, 0, 2⟩
-          | _ => ⟨.err .index, h.steps, h.depth, h.frames, 0, 0⟩
-      | _ => ⟨.err .index, h.steps, h.depth, h.frames, 0, 0⟩
-    | st => ⟨st, h.steps, h.depth, h.frames, 0, 0⟩
+                    let b := unmarshal T true fds fuel s body 0 le
+                    ⟨b.st, h.steps + b.steps, max h.depth b.depth, max h.frames b.frames, h.size + b.size, 1,
+                     w + b.work, h.chars + b.chars⟩
+                | _ => ⟨.err (if fix then .marshalling else .type), h.steps, h.depth, h.frames, 0, 2, w, 0⟩
+          | _ => ⟨.err .index, h.steps, h.depth, h.frames, 0, 0, w, 0⟩
+      | _ => ⟨.err .index, h.steps, h.depth, h.frames, 0, 0, h.work, 0⟩
+    | st => ⟨st, h.steps, h.depth, h.frames, 0, 0, h.work, 0⟩
 
 /-- Fuel that is always enough for `parseMessage` of the repaired code (`parseMessage_total`). -/
 def parseFuel (hf : List Char) (data : List UInt8) : Nat := 2 * (max hf.length 255) + 2 * data.length + 2
@@ -350,5 +412,9 @@ def parseFuel (hf : List Char) (data : List UInt8) : Nat := 2 * (max hf.length 2
 /-- Step bound of `parseMessage` (repaired code): linear in the message length. -/
 def parseStepBound (hf : List Char) (data : List UInt8) : Nat :=
   hf.length + 255 + (max hf.length 255 + 2) * data.length + 2
+
+/-- Work bound of `parseMessage` (repaired code). -/
+def parseWorkBound (hf : List Char) (data : List UInt8) : Nat :=
+  workUnit (max hf.length 255) * parseStepBound hf data + 3 * data.length + (max hf.length 255 + 1) * (max hf.length 255 + 1)
 
 end Txdbus.Cost
